@@ -600,7 +600,7 @@ let () =
         [ (false, 1); (false, 3); (false, 4); (true, 1) ];
       let r = mk_rng seed in
       for _ = 1 to n do oracle_case emit name (rand_table ~valid:true r) done);
-  (* ---- known findings: one dedicated oracle stream each (see known_findings.txt) ---- *)
+  (* ---- regressions of repaired findings, and the open one (see known_findings.txt) ---- *)
   register "c14.ehra" ~doc:"regression (repo 3c6e5b8): .eh_frame CIE with return_address_register >= 128 reads back"
     (fun ~seed:_ ~n:_ emit ->
       List.iter (fun ra ->
@@ -608,22 +608,33 @@ let () =
               oracle_case emit "c14.ehra" (simple ~eh:true { cie0 with ra; asz; daf = -8; cinsns = [ ICfa (7, 8) ] }
                                                { fde0 with finsns = [ (4, IOffset (6, -16)) ] }))
             [ 4; 8 ]) [ 0; 16; 127; 128; 200; 255; 256; 1000; 65535 ]);
-  register "c14.f_pad64" ~doc:"finding: 64-bit format entries are padded so that 8 + length (not 12 + length) is a multiple of the address size"
+  register "c14.pad64" ~doc:"regression (repo d2e46aa): 64-bit format entries are padded so that 12 + length is a multiple of the address size"
     (fun ~seed:_ ~n:_ emit ->
       List.iter (fun eh ->
           List.iter (fun asz ->
               List.iter (fun fmt64 ->
                   for k = 0 to 8 do
                     let c = { cie0 with fmt64; asz; ver = (if eh then 1 else 4); cinsns = List.init k (fun _ -> IArgsSize 1) } in
-                    oracle_case emit "c14.f_pad64" (simple ~eh c fde0)
+                    oracle_case emit "c14.pad64" (simple ~eh c fde0)
                   done) [ false; true ]) [ 4; 8 ]) [ false; true ]);
-  register "c14.f_lsda" ~doc:"finding: an FDE's LSDA is silently dropped (release builds; any build when the CIE has no augmentation) when the CIE has no lsda_encoding, and a CIE with lsda_encoding accepts FDEs without LSDA"
+  register "c14.lsda" ~doc:"regression (repo a8af08f): an FDE whose LSDA presence disagrees with the lsda_encoding of its CIE is rejected with InvalidAddress"
     (fun ~seed:_ ~n:_ emit ->
       let a = Some (Const (Z.of_int 0x3300)) in
       List.iter (fun eh ->
-          oracle_case emit "c14.f_lsda" (simple ~eh cie0 { fde0 with flsda = a });
-          oracle_case emit "c14.f_lsda" (simple ~eh { cie0 with sigt = true } { fde0 with flsda = a });
-          oracle_case emit "c14.f_lsda" (simple ~eh { cie0 with lsda_enc = Some 0 } { fde0 with flsda = a });
-          oracle_case emit "c14.f_lsda" (simple ~eh { cie0 with lsda_enc = Some 0x1b } fde0)) [ false; true ])
+          oracle_case emit "c14.lsda" (simple ~eh cie0 { fde0 with flsda = a });
+          oracle_case emit "c14.lsda" (simple ~eh { cie0 with sigt = true } { fde0 with flsda = a });
+          oracle_case emit "c14.lsda" (simple ~eh { cie0 with lsda_enc = Some 0 } { fde0 with flsda = a });
+          oracle_case emit "c14.lsda" (simple ~eh { cie0 with lsda_enc = Some 0x1b } fde0)) [ false; true ])
 
+(* finding: address sizes that are not 1/2/4/8 — 0 panics (checked) or appends nops without end (release), other
+   non-powers of two trip a debug_assert; the property wants an error. Expected = the repaired behaviour. *)
+let () =
+  register "c14.f_asz" ~doc:"finding: address_size 0 (and other sizes that are not 1/2/4/8) must be rejected with an error; watchdog writer capped at 1 MiB"
+    (fun ~seed:_ ~n:_ emit ->
+      List.iter (fun eh ->
+          List.iter (fun asz ->
+              List.iter (fun fenc ->
+                  let s = simple ~eh { cie0 with asz; ver = (if eh then 1 else 4); fenc } fde0 in
+                  both_s emit (fun () -> tok_script "c14.f_asz" s) (fun _ -> "err UnsupportedWordSize"))
+                [ 0; 0x1b ]) [ 0; 3; 5; 6; 7 ]) [ false; true ])
 let init () = ()
